@@ -112,6 +112,9 @@ def header_variants(version):
         ('xml-1.1', [h[0].replace('version="1.0"', 'version="1.1"'), h[1]], 'either'),
         ('https-dtd', [h[0], h[1].replace('http://', 'https://')], 'either'),
         ('public-doctype', [h[0], f'<!DOCTYPE LexicalResource PUBLIC "x" "{dtd}">'], 'either'),
+        # bytes that are not UTF-8 on the second line (written through surrogateescape): not a WN-LMF file
+        ('non-utf8-line2', [h[0], '<!-- caf\udce9 -->', h[1]], 'reject'),
+        ('non-utf8-doctype', [h[0], h[1].replace('LexicalResource', 'Lexical\udce9Resource')], 'reject'),
     ]
 
 
@@ -247,8 +250,12 @@ def check_headers(case, d):
     V, digs = [], []
     for name, hdr, cls in header_variants(v):
         text = '\n'.join(hdr + [body])
-        f = env.write_file('h.xml', text, d)
-        il = lmf.is_lmf(f)
+        f = env.write_file('h.xml', text.encode('utf-8', 'surrogateescape'), d)
+        try:
+            il = lmf.is_lmf(f)
+        except Exception as exc:     # noqa: BLE001
+            V.append((f'is_lmf:raises:{name}', f'header {name}: is_lmf raised {exc!r} instead of answering'))
+            il = False
         try:
             L = lmf.load(f, progress_handler=None)
             loaded = True
